@@ -32,6 +32,7 @@ pub fn all() -> Vec<Scenario> {
         Scenario { name: "dead_rhs_node_height_adjust", props: &["C04"], run: dead_rhs_node_height_adjust },
         Scenario { name: "second_observer_spurious_changed", props: &["C09"], run: second_observer_spurious_changed },
         Scenario { name: "unsubscribe_handler_count", props: &["C11", "C09"], run: unsubscribe_handler_count },
+        Scenario { name: "double_unsubscribe", props: &["C09", "C10", "C11"], run: double_unsubscribe },
         Scenario { name: "expert_remove_invalid_child", props: &["C14"], run: expert_remove_invalid_child },
         Scenario { name: "expert_add_dep_on_computed_child", props: &["C14"], run: expert_add_dep_on_computed_child },
         Scenario { name: "expert_remove_first_duplicate", props: &["C14"], run: expert_remove_first_duplicate },
@@ -657,5 +658,28 @@ fn mapref_reobserved_same_round_write() -> Result<(), String> {
         o2.try_get_value()
     );
     drop(keep);
+    Ok(())
+}
+
+fn double_unsubscribe() -> Result<(), String> {
+    let st = IncrState::new();
+    let v = st.var(1i64);
+    let o = v.observe();
+    let log = Rc::new(RefCell::new(Vec::<Update<i64>>::new()));
+    let t1 = o.subscribe(|_| {});
+    let _t2 = o.subscribe({
+        let log = log.clone();
+        move |u| log.borrow_mut().push(u.cloned())
+    });
+    st.stabilise();
+    o.unsubscribe(t1).map_err(|e| format!("{e:?}"))?;
+    o.unsubscribe(t1).map_err(|e| format!("second unsubscribe of the same token: {e:?}"))?;
+    v.set(2);
+    st.stabilise();
+    check!(
+        *log.borrow() == vec![Update::Initialised(1), Update::Changed(2)],
+        "the other subscriber saw {:?} after a token was unsubscribed twice",
+        log.borrow()
+    );
     Ok(())
 }
